@@ -269,7 +269,7 @@ def scalar_case(draw):
     return dict(ep=ep, x=x, how=how)
 
 
-def _compare(ctx, name, got, ref, how):
+def _compare(ctx, name, got, ref, how, kappa=1.0):
     ctx.check(len(got) == len(ref), name + ": number of outputs")
     for i, (g, r) in enumerate(zip(got, ref)):
         g = np.asarray(g)
@@ -278,7 +278,7 @@ def _compare(ctx, name, got, ref, how):
                   (name, i), dtype=str(g.dtype), how=how)
         ctx.check(g.shape == r.shape, "%s: output %d same shape for every packaging" %
                   (name, i), got=g.shape, want=r.shape, how=how)
-        tol = 2e-5 if how in ("np32", "nd32") else 1e-12
+        tol = 2e-5 * kappa if how in ("np32", "nd32") else 1e-12
         ctx.close("%s: output %d equals the float64 reference" % (name, i),
                   g.astype(complex) if g.dtype.kind == "c" else g.astype(float),
                   r.astype(complex) if r.dtype.kind == "c" else r.astype(float),
@@ -542,7 +542,13 @@ def body_array(case, ctx):
                 "Representation" in ep:
             ctx.check(g.dtype.kind in "fc", "%s(%s): floating output" % (ep, how),
                       dtype=str(g.dtype))
-    _compare(ctx, ep, got, ref, how_cmp)
+    kappa = 1.0
+    if ep == "hyperbolic.Point(halfspace)" and how_cmp == "nd32":
+        # single-precision input: a point (x, h) of the half-space far from (0, 1) lies at
+        # 1 - |p|^2 ~ h / (1 + |x|^2 + h^2) from the boundary of the ball the library computes
+        # in, and reading its height back amplifies the input rounding by the inverse of that
+        kappa = float(np.max((1.0 + np.sum(a * a, axis=-1)) / np.minimum(a[..., -1], 1.0)))
+    _compare(ctx, ep, got, ref, how_cmp, kappa=max(kappa, 1.0))
     ctx.label("non-reference-packaging")
 
 
